@@ -35,6 +35,18 @@ def boxedInv (vartime : Bool) (a m adj : List Nat) : Option (Option Nat) :=
   let o := (Inverter.newBoxed m adj).invBoxed vartime a
   if o.negative then none else some (invOutOpt o)
 
+/-- with debug assertions: `BoxedUnsatInt::widen` (boxed.rs:420) rejects a value wider than the
+    modulus and `to_uint(value.bits_precision())` (boxed.rs:321) a value of any other precision. -/
+def boxedInvD (dbg vartime : Bool) (a m adj : List Nat) : Option (Option Nat) :=
+  if dbg && nlimbsFor (a.length * 64) != nlimbsFor (m.length * 64) then none else boxedInv vartime a m adj
+
+/-- `release ## dbgchk` when the two profiles differ -/
+def prof (rel dbg : String) : String := if rel = dbg then rel else rel ++ " ## " ++ dbg
+
+def optLimbsTok : Option (List Nat) → String
+  | none => "panic"
+  | some v => limbsHex v
+
 def boxedInvOddVal (l : Nat) (a m : Nat) : Option Nat :=
   match boxedInv false (toLimbs l a) (toLimbs l m) [1] with
   | some r => r
@@ -111,7 +123,9 @@ def dispatchC10 : Dispatch := fun op args =>
     | none => badArgs
   | "c10.u.inv_mod_m0", [n, a, _form] =>
     match n.toNat?, hexToNat? a with
-    | some n, some a => some (both (rTok (invModWith (fixedInvOdd n) (64 * n) a 0)) (optTok (specInv a 0)))
+    -- modulus 0 is outside C10's domain (m ≥ 1): C10 allows either answer (totality is C11's, DESIGN §7 row 8);
+    -- L1 still mirrors the code (`panic`, theorem `inv_mod_zero_modulus_panics`)
+    | some n, some a => some (both (rTok (invModWith (fixedInvOdd n) (64 * n) a 0)) "panic || none")
     | _, _ => badArgs
   | "c10.b.inv_mod", [n, a, m] | "c10.b.inv_mod_trait", [n, a, m] =>
     match p3 n a m with
@@ -140,10 +154,10 @@ def dispatchC10 : Dispatch := fun op args =>
   | "c10.b.inv_odd_mod_mixed", [la, a, lm, m] =>
     match la.toNat?, hexToNat? a, lm.toNat?, hexToNat? m with
     | some la, some a, some lm, some m =>
-      let l1 := match boxedInv false (toLimbs la a) (toLimbs lm m) [1] with
+      let t := fun dbg => match boxedInvD dbg false (toLimbs la a) (toLimbs lm m) [1] with
         | none => "panic"
         | some r => optTok r
-      some (both l1 (optTok (specInv a m)))
+      some (both (prof (t false) (t true)) (optTok (specInv a m)))
     | _, _, _, _ => badArgs
   | "c10.u.inverter", [n, m, a, vt] =>
     match p3 n m a, flag? vt with
@@ -230,14 +244,15 @@ def dispatchC10 : Dispatch := fun op args =>
   | "c10.b.gcd_mixed", [la, a, lb, b, vt] =>
     match la.toNat?, hexToNat? a, lb.toNat?, hexToNat? b, flag? vt with
     | some la, some a, some lb, some b, some vt =>
-      let r := if vt then boxedGcdVartime (toLimbs la a) (toLimbs lb b) else boxedGcd (toLimbs la a) (toLimbs lb b)
-      some (both (match r with | none => "panic" | some v => limbsHex v) (natToHex (specGcd a b)))
+      let r := fun dbg => optLimbsTok (if vt then boxedGcdVartimeD dbg (toLimbs la a) (toLimbs lb b)
+                                       else boxedGcdD dbg (toLimbs la a) (toLimbs lb b))
+      some (both (prof (r false) (r true)) (natToHex (specGcd a b)))
     | _, _, _, _, _ => badArgs
   | "c10.b.odd_gcd_mixed", [la, a, lb, b, vt] =>
     match la.toNat?, hexToNat? a, lb.toNat?, hexToNat? b, flag? vt with
     | some la, some a, some lb, some b, some vt =>
-      let r := boxedOddGcd vt (toLimbs la a) (toLimbs lb b)
-      some (both (match r with | none => "panic" | some v => limbsHex v) (natToHex (specGcd a b)))
+      let r := fun dbg => optLimbsTok (boxedOddGcdD dbg vt (toLimbs la a) (toLimbs lb b))
+      some (both (prof (r false) (r true)) (natToHex (specGcd a b)))
     | _, _, _, _, _ => badArgs
   -- ---------------------------------------------------------------- model-only reports (not generated)
   | "c10.slack.inv", [n, a, m] =>
